@@ -550,11 +550,21 @@ where
     }
 
     pub fn edge_from(&self, storage: &Storage<D>, index: GraphIndex) -> GraphIndex {
-        GraphIndex::from(-self.data.from(storage, index).unwrap_or_default())
+        GraphIndex::from(
+            self.data
+                .from(storage, index)
+                .unwrap_or_default()
+                .wrapping_neg(),
+        )
     }
 
     pub fn edge_to(&self, storage: &Storage<D>, index: GraphIndex) -> GraphIndex {
-        GraphIndex::from(-self.data.to(storage, index).unwrap_or_default())
+        GraphIndex::from(
+            self.data
+                .to(storage, index)
+                .unwrap_or_default()
+                .wrapping_neg(),
+        )
     }
 
     pub fn first_edge_from(
@@ -562,7 +572,9 @@ where
         storage: &Storage<D>,
         index: GraphIndex,
     ) -> Result<GraphIndex, DbError> {
-        Ok(GraphIndex::from(self.data.from(storage, index)?.wrapping_neg()))
+        Ok(GraphIndex::from(
+            self.data.from(storage, index)?.wrapping_neg(),
+        ))
     }
 
     pub fn first_edge_to(
@@ -570,7 +582,9 @@ where
         storage: &Storage<D>,
         index: GraphIndex,
     ) -> Result<GraphIndex, DbError> {
-        Ok(GraphIndex::from(self.data.to(storage, index)?.wrapping_neg()))
+        Ok(GraphIndex::from(
+            self.data.to(storage, index)?.wrapping_neg(),
+        ))
     }
 
     pub fn insert_edge(
@@ -738,7 +752,9 @@ where
         storage: &Storage<D>,
         index: GraphIndex,
     ) -> Result<GraphIndex, DbError> {
-        Ok(GraphIndex::from(-self.data.from_meta(storage, index)?))
+        Ok(GraphIndex::from(
+            self.data.from_meta(storage, index)?.wrapping_neg(),
+        ))
     }
 
     pub(crate) fn next_edge_to(
@@ -746,7 +762,9 @@ where
         storage: &Storage<D>,
         index: GraphIndex,
     ) -> Result<GraphIndex, DbError> {
-        Ok(GraphIndex::from(-self.data.to_meta(storage, index)?))
+        Ok(GraphIndex::from(
+            self.data.to_meta(storage, index)?.wrapping_neg(),
+        ))
     }
 
     fn edge_count_from(&self, storage: &Storage<D>, index: GraphIndex) -> Result<i64, DbError> {
